@@ -25,7 +25,8 @@ TITLE = 'no leak; prefix independence'
 LEVEL = 'exploration'
 SHARDS = {'quick': 16, 'thorough': 16}
 FLOOR = {'quick': 1000, 'thorough': 8000}
-REQUIRED_MONITORS = {'M-out': 3000, 'spellings-compared': 2000, 'foreign-checked': 2000, 'data-option-compared': 500}
+REQUIRED_MONITORS = {'M-out': 3000, 'spellings-compared': 2000, 'foreign-checked': 2000, 'data-option-compared': 500,
+                     'prefix-rebinding-compared': 500}
 RULE = ('programs = element trees (depth<=3) with 0..3 statements per element from {tal: content, replace, condition, '
         'define, omit-tag, attributes, repeat, on-error, switch, comment; i18n: translate, domain, attributes; meta: '
         'interpolation; metal: define-macro, define-slot} and 0..3 foreign attributes from {class, data-foo, data-x-y, f:a '
@@ -238,6 +239,50 @@ def shape(root, plan):
     return tuple(out)
 
 
+def layer_prefix_rebinding(ctx, n):
+    """A prefix bound to a foreign namespace by an ancestor and re-bound to a template namespace on single
+    elements (paired or self-closing): the re-binding must end with that element."""
+    rng = ctx.rng
+    for case in range(n):
+        sibs = []
+        for _ in range(rng.randint(2, 5)):
+            k = rng.choice(['F', 'S', 'P', 'N'])
+            stmt = rng.choice([('condition', 'c'), ('content', 'x'), ('omit-tag', ''), ('attributes', 'k x'), ('define', 'q 1')])
+            sibs.append((k, stmt))
+        ns = rng.choice(['tal', 'tal', 'i18n'])
+        if ns == 'i18n':
+            sibs = [(k, ('domain', 'd')) for k, st in sibs]
+
+        def ser(respelt):
+            out = '<root xmlns:q="http://foreign-q">'
+            for i, (k, (name, val)) in enumerate(sibs):
+                if k == 'F':
+                    out += '<i q:fa="%d" id="f%d">t</i>' % (i, i)
+                elif k == 'N':
+                    out += '<n id="n%d"><q:el q:fa="%d">u</q:el></n>' % (i, i)
+                else:
+                    pre = 'q' if respelt else ns
+                    decl = ' xmlns:q="%s"' % NS[ns] if respelt else ''
+                    if k == 'S':
+                        out += '<br id="s%d"%s %s:%s="%s"/>' % (i, decl, pre, name, val)
+                    else:
+                        out += '<u id="p%d"%s %s:%s="%s">old</u>' % (i, decl, pre, name, val)
+            return out + '</root>'
+        base_src, src = ser(False), ser(True)
+        base = render(base_src)
+        out = render(src)
+        ctx.mon('prefix-rebinding-compared')
+        ctx.mon('M-out')
+        ctx.case(key=('rebind', tuple(k for k, st in sibs), tuple(st[0] for k, st in sibs), ns), nontrivial=True)
+        lk = leak_scan(out, set(NS) | set(ALT.values())) if not out.startswith('RAISED') else []
+        if base.startswith('RAISED'):
+            ctx.violation('base-' + base.split(':')[0].replace(' ', '-'), 'default spelling %r: %s' % (base_src, base), {'src': base_src})
+        elif out != base or lk:
+            ctx.violation('prefix-rebinding-does-not-end-with-its-element',
+                          're-binding a foreign prefix on single elements changes the rendering\n  default %r\n   -> %r\n  respelt %r\n   -> %r'
+                          % (base_src, base, src, out), {'src': src, 'base_src': base_src, 'cfg': {}})
+
+
 def run(ctx):
     monitors.install(ctx, tokalg=False)
     rng = ctx.rng
@@ -304,6 +349,7 @@ def run(ctx):
                 ctx.violation(classify_spelling(root, plan, 'differs' if not out.startswith('RAISED') else out.split(':')[0].replace(' ', '-')),
                               're-spelling changes the rendering\n  default %r\n   -> %r\n  respelt %r\n   -> %r' % (
                                   base_src, base, src, out), {'src': src, 'cfg': vcfg, 'base_src': base_src})
+    _after_run(ctx)
 
 
 def classify_spelling(root, plan, what):
@@ -315,6 +361,10 @@ def classify_spelling(root, plan, what):
         if 'data' in kinds:
             mixed_on_one = True
     return ('data-attribute-on-element-misaligns-drop-list:' if mixed_on_one else 'respelling-') + what
+
+
+def _after_run(ctx):
+    layer_prefix_rebinding(ctx, 60 if ctx.quick else 1200)
 
 
 def replay(data):
